@@ -104,3 +104,17 @@ Lemma instr_copy_needed :
   exists w' r, exec no_instr_copy ex_world (CInstr (Ref 5)) = Some (w', r) /\
                nth_error (hp w') 4 <> nth_error (hp ex_world) 4.
 Proof. do 2 eexists. split; [vm_compute; reflexivity|vm_compute; discriminate]. Qed.
+
+(* an 8-call history on shared objects satisfying the hypotheses of history_pure *)
+Definition ex_history : list call :=
+  [CSimRun 0 (Ref 10) 1 [1]; CSimRun 0 (Tok 0) 1 [0]; CSimStats 0 (Ref 10) 2; CReverse (Ref 9);
+   CSchedule (Ref 9) true; CInstr (Ref 5); CCompile 0 (Ref 9) true 1 1; CLoad 0 (Ref 9) (Some 0) (Some [1; 1; 0]) true 1].
+
+Example history_example :
+  hist_guard good_flags ex_world ex_history = true /\ hist_wf good_flags ex_world ex_history /\
+  exists w' rs, run_hist good_flags ex_world ex_history = Some (w', rs) /\ length rs = 8 /\ length (hp ex_world) < length (hp w').
+Proof.
+  split; [vm_compute; reflexivity|]. split.
+  - vm_compute. repeat split; intros l H; inversion H; subst; repeat constructor.
+  - do 2 eexists. split; [vm_compute; reflexivity|]. split; [reflexivity|]. vm_compute. repeat constructor.
+Qed.
